@@ -46,16 +46,17 @@ SIZEOF = {'double': 8, 'float': 4, 'int': 4, 'dsplib::cmplx_t': 16, 'cmplx_t': 1
 
 
 class Obligation:
-    __slots__ = ('name', 'kind', 'label', 'props', 'status', 'model', 'secs', 'line', 'func', 'detail', 'nvars')
+    __slots__ = ('name', 'kind', 'label', 'props', 'status', 'model', 'secs', 'line', 'func', 'detail', 'nvars', 'vc')
 
     def __init__(self, name, kind, label, props, status, model, secs, line, func, detail=''):
         self.name, self.kind, self.label, self.props = name, kind, label, props
         self.status, self.model, self.secs, self.line, self.func, self.detail = status, model, secs, line, func, detail
+        self.vc = 0
 
     def as_dict(self):
         return {'name': self.name, 'kind': self.kind, 'props': list(self.props), 'status': self.status,
                 'model': self.model, 'secs': round(self.secs, 4), 'line': self.line, 'func': self.func,
-                'detail': self.detail}
+                'detail': self.detail, 'vc': self.vc}
 
 
 _hq_cache = {}
@@ -193,7 +194,7 @@ class Exec:
     def feasible(self, cond):
         """False only when hyps /\\ cond is certainly unsatisfiable"""
         # pruning uses the quantifier-free hypotheses only (fewer hypotheses: never prunes a feasible path)
-        s = self.mk_solver(5000, rlimit=300000)
+        s = self.mk_solver(120000, seed=0, rlimit=300000)     # deterministic: independent of VERIF_SEED and machine load
         for h in self.hyps:
             if not _has_quant(h):
                 s.add(h)
@@ -322,8 +323,14 @@ class Exec:
                         pass
             if props is None:
                 props = self.contract.serves if self.contract else ()
-            self.obligations.append(Obligation(name, kind, label, tuple(props), st, model, secs, line,
-                                               self.fname, detail))
+            ob = Obligation(name, kind, label, tuple(props), st, model, secs, line, self.fname, detail)
+            # fingerprint of the verification condition (structural hashes of goal and hypotheses): equal fingerprints on
+            # two runs mean the solver was asked the very same question
+            h = goal.hash()
+            for hy in self.hyps:
+                h = (h * 1000003 + hy.hash()) & 0xFFFFFFFFFFFF
+            ob.vc = h
+            self.obligations.append(ob)
         self.assume(goal)
 
     def prove(self, goal):
@@ -557,7 +564,7 @@ class Exec:
         if z3.is_int_value(v):
             return lo <= v.as_long() <= hi
         self.flush_div()
-        s = self.mk_solver(5000, rlimit=100000)
+        s = self.mk_solver(120000, seed=0, rlimit=100000)
         for h in self.hyps:
             if not _has_quant(h):
                 s.add(h)
